@@ -443,7 +443,7 @@ class RecordMap(ShiftPipeAction):
         if self.blocks_in is not None:
             if self.blocks_in != other.blocks_in:
                 return False
-        if self.blocks_in is not None:
+        if self.blocks_out is not None:
             if self.blocks_out != other.blocks_out:
                 return False
         return True
